@@ -1311,6 +1311,11 @@ class AnyPayloadDecoder(AbstractSimplePayloadDecoder):
             if LOG:
                 LOG('decoding as untagged ANY, header substrate %s' % debug.hexdump(chunk))
 
+        # called to collect raw octets of an enclosing ANY?
+        isFragment = substrateFun is self.substrateCollector
+
+        initialSpec = asn1Spec
+
         # Any components do not inherit initial tag
         asn1Spec = self.protoComponent
 
@@ -1347,11 +1352,16 @@ class AnyPayloadDecoder(AbstractSimplePayloadDecoder):
 
             chunk += component
 
-        if substrateFun:
-            yield chunk  # TODO: Weird
+        if not isTagged:
+            # untagged ANY holds complete serialisation, closing
+            # end-of-octets sentinel included
+            chunk += EOO_SENTINEL
+
+        if isFragment:
+            yield chunk
 
         else:
-            yield self._createComponent(asn1Spec, tagSet, chunk, **options)
+            yield self._createComponent(initialSpec, tagSet, chunk, **options)
 
 
 # character string types
